@@ -117,6 +117,16 @@ func parse(body string) view {
 	return v
 }
 
+func firstLine(s string) string {
+	if i := strings.Index(s, "\n"); i >= 0 {
+		s = s[:i]
+	}
+	if len(s) > 200 {
+		s = s[:200]
+	}
+	return s
+}
+
 func sameView(a, b view) bool {
 	if a.msn != b.msn || len(a.durs) != len(b.durs) {
 		return false
@@ -475,8 +485,14 @@ func main() {
 			for _, ob := range found {
 				failures = append(failures, failure{
 					Signature: fmt.Sprintf("C04:%s:streams-disagree-at-the-same-time:%s", sc.Variant, ob.Kind),
-					What: fmt.Sprintf("%s and %s expose different media sequence numbers / durations at the same time (%s): %s",
-						ob.StreamX, ob.StreamY, ob.Kind, ob.Detail),
+					What: func() string {
+						if ob.Kind == "panic" {
+							return fmt.Sprintf("a request for %s / %s made while the writer rotates does not get a playlist at all: %s: %s",
+								ob.StreamX, ob.StreamY, ob.Detail, firstLine(ob.X1+ob.Y+ob.X2))
+						}
+						return fmt.Sprintf("%s and %s expose different media sequence numbers / durations at the same time (%s): %s",
+							ob.StreamX, ob.StreamY, ob.Kind, ob.Detail)
+					}(),
 					Input: ob,
 				})
 			}
